@@ -16,6 +16,8 @@
                usage counters, AvailableSpaceFor, and (hasi) the DiskInfo numbers
      S.look  : <<[id, ns]>>                      Topology.Lookup per volume id
      S.wr    : <<id>>                            union of the layouts' writable lists
+     S.picks : <<[cls, dc, err, vid, node]>>     Topology.PickForWrite per volume class / data center wish
+     S.pp    : BOOLEAN                           PickForWrite panicked
 
    C12 (Counts): every counter at every level equals a recount over the volumes
    and shards listed beneath that level IN THE SAME SNAPSHOT, free slots follow
@@ -35,12 +37,14 @@ EXTENDS Integers, Sequences, FiniteSets, FiniteSetsExt, TLC, Json
 
 VARIABLES cfg,      \* static: [asmin, nodes: <<[id,dc,rack]>>, vols: <<[id,copies,disk,..]>>, ecs: <<[id,disk,..]>>]
           conn,     \* servers with an open heartbeat stream
-          exp,      \* exp[n][vid] = [ro, big, rem, known]: volumes the messages say server n has
+          exp,      \* exp[n][vid] = [ro, big, rem, known, regbig]: volumes the messages say server n has
           expEc,    \* expEc[n][vid] = set of shard ids
           expMax,   \* expMax[n][t] = last max volume count in force for disk type t of n
           ghostEc,  \* ghostEc[vid] = servers whose stream broke while they held shards of vid
-          fresh     \* TRUE iff the master's size check (collect) was the last step
-avars == <<cfg, conn, exp, expEc, expMax, ghostEc, fresh>>
+          fresh,    \* TRUE iff the master's size check (collect) was the last step
+          zomb,     \* servers that opened a new stream while the master still holds their previous one
+          lost      \* finding C11-reconnect-race: servers the master forgot although their new stream is open
+avars == <<cfg, conn, exp, expEc, expMax, ghostEc, fresh, zomb, lost>>
 
 Get(f, k, d) == IF k \in DOMAIN f THEN f[k] ELSE d
 NodeIds == {r.id : r \in Range(cfg.nodes)}
@@ -57,17 +61,21 @@ AInit(c) == /\ cfg = c
             /\ expMax = [n \in {r.id : r \in Range(c.nodes)} |-> <<>>]
             /\ ghostEc = [v \in {r.id : r \in Range(c.ecs)} |-> {}]
             /\ fresh = FALSE
+            /\ zomb = {} /\ lost = {}
 
 (* ---------------- the messages (inputs) and what they say ---------------- *)
 MaxTypes(mx) == {mx[i][1] : i \in DOMAIN mx}
 MaxVal(mx, t) == (CHOOSE p \in Range(mx) : p[1] = t)[2]
 
 \* a full volume heartbeat of server n: max = <<<<disktype, count>>>>, vols = <<[id, ro, big, rem]>>
-Full(n, max, vols) ==
+FullCore(n, max, vols) ==
+  /\ n \notin lost
   /\ conn' = conn \cup {n}
   /\ exp' = [exp EXCEPT ![n] = [id \in {r.id : r \in Range(vols)} |->
                 LET x == CHOOSE y \in Range(vols) : y.id = id
-                IN [ro |-> x.ro, big |-> x.big, rem |-> x.rem, known |-> TRUE]]]
+                    \* regbig: at the size limit when the master registered this replica, and ever since
+                    rb == IF id \in DOMAIN exp[n] /\ n \in conn THEN exp[n][id].regbig /\ x.big ELSE x.big
+                IN [ro |-> x.ro, big |-> x.big, rem |-> x.rem, known |-> TRUE, regbig |-> rb]]]
   /\ expMax' = [expMax EXCEPT ![n] =
         IF n \notin conn
         THEN [t \in MaxTypes(max) |-> MaxVal(max, t)]     \* the server is created with what it reports
@@ -75,39 +83,64 @@ Full(n, max, vols) ==
                  IF t \in MaxTypes(max) /\ MaxVal(max, t) # 0 THEN MaxVal(max, t) ELSE @[t]]]   \* zero = "no news"
   /\ fresh' = FALSE
   /\ UNCHANGED <<cfg, expEc, ghostEc>>
+Full(n, max, vols) == FullCore(n, max, vols) /\ UNCHANGED <<zomb, lost>>
 
 \* an incremental volume heartbeat: ids of new and of deleted volumes (short form: no flags)
 Inc(n, newv, delv) ==
+  /\ n \in conn
   /\ exp' = [exp EXCEPT ![n] = [id \in (DOMAIN @ \ Range(delv)) \cup Range(newv) |->
-                IF id \in Range(newv) THEN [ro |-> FALSE, big |-> FALSE, rem |-> FALSE, known |-> FALSE] ELSE @[id]]]
+                IF id \in Range(newv) THEN [ro |-> FALSE, big |-> FALSE, rem |-> FALSE, known |-> FALSE, regbig |-> FALSE] ELSE @[id]]]
   /\ fresh' = FALSE
-  /\ UNCHANGED <<cfg, conn, expEc, expMax, ghostEc>>
+  /\ UNCHANGED <<cfg, conn, expEc, expMax, ghostEc, zomb, lost>>
 
 BitsOf(list, id) == UNION {Range(r.bits) : r \in {x \in Range(list) : x.id = id}}
 EcFull(n, ecs) ==
+  /\ n \in conn
   /\ expEc' = [expEc EXCEPT ![n] = [id \in {r.id : r \in {x \in Range(ecs) : x.bits # <<>>}} |-> BitsOf(ecs, id)]]
   /\ fresh' = FALSE
-  /\ UNCHANGED <<cfg, conn, exp, expMax, ghostEc>>
+  /\ UNCHANGED <<cfg, conn, exp, expMax, ghostEc, zomb, lost>>
 EcInc(n, newec, delec) ==
+  /\ n \in conn
   /\ LET old == expEc[n]
          val(id) == (Get(old, id, {}) \cup BitsOf(newec, id)) \ BitsOf(delec, id)
          ids == DOMAIN old \cup {r.id : r \in Range(newec)}
      IN expEc' = [expEc EXCEPT ![n] = [id \in {i \in ids : val(i) # {}} |-> val(id)]]
   /\ fresh' = FALSE
-  /\ UNCHANGED <<cfg, conn, exp, expMax, ghostEc>>
+  /\ UNCHANGED <<cfg, conn, exp, expMax, ghostEc, zomb, lost>>
 
 \* the stream of server n broke
 Close(n) ==
+  /\ n \notin zomb /\ n \notin lost
   /\ conn' = conn \ {n}
   /\ exp' = [exp EXCEPT ![n] = <<>>]
   /\ expEc' = [expEc EXCEPT ![n] = <<>>]
   /\ expMax' = [expMax EXCEPT ![n] = <<>>]
   /\ ghostEc' = [v \in DOMAIN ghostEc |-> IF v \in DOMAIN expEc[n] THEN ghostEc[v] \cup {n} ELSE ghostEc[v]]
   /\ fresh' = FALSE
-  /\ UNCHANGED cfg
+  /\ UNCHANGED <<cfg, zomb, lost>>
+
+\* The server opens a new stream (first message: a full volume heartbeat) while the master has not yet noticed
+\* that the previous one broke.  The message says what any full heartbeat says.
+Reopen(n, max, vols) == n \in conn /\ n \notin zomb /\ FullCore(n, max, vols) /\ zomb' = zomb \cup {n} /\ UNCHANGED lost
+\* The master notices that the previous stream broke.  The server is connected (its new stream is open), so
+\* nothing about it changes ...
+ZCloseKeep(n) == /\ n \in zomb /\ zomb' = zomb \ {n} /\ fresh' = FALSE
+                 /\ UNCHANGED <<cfg, conn, exp, expEc, expMax, ghostEc, lost>>
+\* ... finding C11-reconnect-race: the master forgets the server instead; whatever its open stream reports from
+\* now on goes to an object that is no longer part of the topology
+ZCloseForget(n) ==
+  /\ n \in zomb /\ zomb' = zomb \ {n} /\ lost' = lost \cup {n}
+  /\ conn' = conn \ {n}
+  /\ exp' = [exp EXCEPT ![n] = <<>>] /\ expEc' = [expEc EXCEPT ![n] = <<>>] /\ expMax' = [expMax EXCEPT ![n] = <<>>]
+  /\ ghostEc' = [v \in DOMAIN ghostEc |-> ghostEc[v] \cup {n}]
+  /\ fresh' = FALSE /\ UNCHANGED cfg
+\* a message on the open stream of a forgotten server, and that stream breaking
+LostMsg(n) == n \in lost /\ fresh' = FALSE /\ UNCHANGED <<cfg, conn, exp, expEc, expMax, ghostEc, zomb, lost>>
+LostClose(n) == /\ n \in lost /\ n \notin zomb /\ lost' = lost \ {n} /\ fresh' = FALSE
+                /\ UNCHANGED <<cfg, conn, exp, expEc, expMax, ghostEc, zomb>>
 
 \* the master's periodic size check ran over the registry
-Collect == fresh' = TRUE /\ UNCHANGED <<cfg, conn, exp, expEc, expMax, ghostEc>>
+Collect == fresh' = TRUE /\ UNCHANGED <<cfg, conn, exp, expEc, expMax, ghostEc, zomb, lost>>
 
 (* ---------------- C12: the snapshot recounts itself ---------------- *)
 FreeSlots(max, rem, vc, ec) == max + rem - vc - (IF ec > 0 THEN (ec \div 10) + 1 ELSE 0)
@@ -156,20 +189,38 @@ EcRegOK(S) == \A n \in conn :
 Replicas(S, v) == {i \in DOMAIN S.vols : S.vols[i].id = v}
 Holders(S, v) == {S.vols[i].n : i \in Replicas(S, v)}
 EcHolders(S, v) == {S.ecs[i].n : i \in {j \in DOMAIN S.ecs : S.ecs[j].id = v}}
+\* a forgotten server (C11-reconnect-race) can still be in a volume's location list without being in the tree
+OnLost(S, v) == \E i \in DOMAIN S.look : S.look[i].id = v /\ Range(S.look[i].ns) \cap lost # {}
 WritableOK(S) == \A v \in Range(S.wr) :
   LET k == Cardinality(Holders(S, v))  c == VolRec(v).copies IN
   /\ v \in VolIds
   /\ \A i \in Replicas(S, v) : ~S.vols[i].ro
-  /\ k = c \/ (cfg.asmin /\ k > c)
-  /\ fresh => \A i \in Replicas(S, v) : ~S.vols[i].big
-LookupVolOK(S) == \A i \in DOMAIN S.look : S.look[i].id \in VolIds => Range(S.look[i].ns) = Holders(S, S.look[i].id)
+  /\ k = c \/ (cfg.asmin /\ k > c) \/ OnLost(S, v)
+  /\ fresh => \A i \in Replicas(S, v) : ~S.vols[i].big          \* the size check just ran: no replica at the limit
+\* a replica that was at the size limit when the master registered it (and still is) keeps the volume out of the lists
+HasRegBig(v) == \E n \in conn : v \in DOMAIN exp[n] /\ exp[n][v].regbig
+RegBigOK(S) == \A v \in Range(S.wr) : ~HasRegBig(v)
+\* finding C11-oversized-joins-writable: a volume that is already in a writable list stays there when such a replica
+\* joins (possible with replication-as-minimum only); the next size check removes it.  prevwr = the previous lists.
+RegBigStale(S, prevwr) == \A v \in Range(S.wr) : HasRegBig(v) => v \in prevwr
+LookupVolOK(S) == \A i \in DOMAIN S.look : S.look[i].id \in VolIds => Range(S.look[i].ns) \ lost = Holders(S, S.look[i].id)
 LookupEcOK(S) == \A i \in DOMAIN S.look : S.look[i].id \in EcIds \ VolIds => Range(S.look[i].ns) = EcHolders(S, S.look[i].id)
 \* finding C11-ec-lookup-after-disconnect: servers that went away while holding shards stay in the answer
 LookupEcStale(S) == \A i \in DOMAIN S.look : S.look[i].id \in EcIds \ VolIds =>
                        /\ EcHolders(S, S.look[i].id) \subseteq Range(S.look[i].ns)
                        /\ Range(S.look[i].ns) \subseteq EcHolders(S, S.look[i].id) \cup ghostEc[S.look[i].id]
 
-C11Base(S) == TreeOK(S) /\ RegOK(S) /\ EcRegOK(S) /\ WritableOK(S) /\ LookupVolOK(S)
-C11OK(S) == C11Base(S) /\ LookupEcOK(S)
+\* what PickForWrite hands out (S.picks: one request per volume class cls and data center wish): a volume of the
+\* requested class from the writable lists and one of the servers that list it; an error is always possible
+SameClass(a, b) == a.col = b.col /\ a.rp = b.rp /\ a.disk = b.disk /\ a.ttl = b.ttl
+\* S.pp: PickForWrite panicked - never admissible, except as a consequence of C11-reconnect-race (a forgotten
+\* server that is in a location list has no data center to compare with the wish)
+PickOK(S) == IF S.pp THEN lost # {} ELSE \A p \in Range(S.picks) :
+  p.err \/ (/\ p.vid \in Range(S.wr) /\ p.vid \in VolIds /\ p.cls \in VolIds
+            /\ SameClass(VolRec(p.vid), VolRec(p.cls))
+            /\ p.node \in Holders(S, p.vid) \cup lost)
+
+C11Base(S) == TreeOK(S) /\ RegOK(S) /\ EcRegOK(S) /\ WritableOK(S) /\ LookupVolOK(S) /\ PickOK(S)
+C11OK(S) == C11Base(S) /\ LookupEcOK(S) /\ RegBigOK(S)
 C12OK(S) == CountsOK(S)
 =============================================================================
